@@ -668,6 +668,9 @@ func nativeReplay(repo, ovFile, pkg, harness, params, vector string, race bool, 
 				if strings.HasPrefix(line, "VERIF-OUTCOME ") {
 					last = strings.TrimPrefix(line, "VERIF-OUTCOME ")
 				}
+				if strings.HasPrefix(line, "VERIF-ASSERT-FAILED ") && last == "" {
+					last = "assert-failed " + strings.TrimPrefix(line, "VERIF-ASSERT-FAILED ")
+				}
 			}
 			if last != "ok" && last != "" {
 				return last, nil
@@ -689,6 +692,14 @@ func nativeReplay(repo, ovFile, pkg, harness, params, vector string, race bool, 
 		}
 	}
 	s := string(out)
+	// an assertion that fails in a goroutine other than the harness's own takes the whole
+	// process down before an outcome line is printed: the native verifAssert announces
+	// the label first
+	for _, line := range strings.Split(s, "\n") {
+		if strings.HasPrefix(line, "VERIF-ASSERT-FAILED ") {
+			return "assert-failed " + strings.TrimPrefix(line, "VERIF-ASSERT-FAILED "), obs
+		}
+	}
 	if strings.Contains(s, "panic: test timed out") {
 		return "timeout", obs
 	}
